@@ -11,6 +11,10 @@ theorems : lean/GoldModel/Props/C06.lean — ladder_spec (the operator ladder re
            prog_roundtrip_memo / prog_roundtrip_ex: parse_gold (print p) = (tree p, no diagnostics) for every well-formed PROGRAM p
            (statements, declarations, types; any size and nesting; expressions abstract, instantiated with Ex);
            lean/GoldModel/Props/C06ProgText.lean — prog_text_roundtrip: the same from the TEXT (lex_render_layout composed).
+           lean/GoldModel/Props/C06Ranges.lean — expr_ranges_ok / expr_encloses / expr_range / expr_maxLine: for EVERY expression
+           whose tokens are in source order the intended tree has start <= end everywhere, every node encloses its children
+           (recursively), its range is the span first..last token of the tree, no line beyond the last token; parsed_expr_ranges:
+           the same for the tree parse_expr returns on every well-formed expression (composition with expr_roundtrip).
 tie      : E5 (operator ladder) regenerated from the source; `parse` correspondence; `exspec` / `progspec`: the Lean specification
            (Ex / Prog: toks, tree, wfb) evaluated on the real lexer's tokens must re-print them and equal the tree the real parser
            built (ranges and selection ranges included), zero diagnostics.
@@ -104,6 +108,7 @@ def run(ctx):
     ctx.prove("GoldModel.Props.C06Text")
     ctx.prove("GoldModel.Props.C06Prog")
     ctx.prove("GoldModel.Props.C06ProgText")
+    ctx.prove("GoldModel.Props.C06Ranges")
     if not ctx.build_harness():
         return ctx.finish(rule=RULE)
     q = ctx.tier == "quick"
